@@ -35,7 +35,7 @@ HARNESSES = {
         params=dict(quick=dict(smax=3), thorough=dict(smax=4)), witnesses=["reordered", "in-order"],
         bound=dict(quick="check_set_predicates on 1..3 solutions (check_predicate uninterpreted: ok / data / fail, symbolic gas, writes to its cache): every execution order of the per-solution tasks",
                    thorough="1..4 solutions"),
-        replay=dict(kind="check_levels")),
+        replay=dict(kind="check_levels", par_runs=10)),
     "compute_any_order": dict(props=["C02"], crates=CRV, fn=_wrap(h_compute.compute),
         params=dict(quick=dict(bmax=2, ns=1, nm=1), thorough=dict(bmax=3, ns=1, nm=1)), witnesses=["reordered", "in-order", "no-parallel-section"],
         bound=dict(quick="Compute with breadth <=2 on the 8 child-body shapes of C10: children executed in both orders, join result equals the sequential reference",
